@@ -491,7 +491,7 @@ func ruleSkipOnReject(c *Ctx, rule string) {
 func init() {
 	register(&PropSpec{
 		ID:          "C16",
-		Explanation: "Decides the structural clause 'no unchecked dynamic-type assumption on client-derived values in parse/plan code, and the per-entry recover barriers exist': every non-comma-ok type assertion in the parse/plan region is dominated by a successful comma-ok test or has a construction-fixed dynamic type; (*table).insert and (*DB).mapPartitionRequest install recover() first and spawn nothing below; a rejected entry still advances the WAL offset. Added clauses: a recovered panic in mapPartitionRequest still reports a result; string slices at searched positions are bounds-safe; no mutex is held without defer across goexpr Eval on the recovered ingest path.",
+		Explanation: "Decides the structural clause 'no unchecked dynamic-type assumption on client-derived values in parse/plan code, and the per-entry recover barriers exist': every non-comma-ok type assertion in the parse/plan region is dominated by a successful comma-ok test or has a construction-fixed dynamic type; (*table).insert and (*DB).mapPartitionRequest install recover() first and spawn nothing below; a rejected entry still advances the WAL offset. Added clauses: a recovered panic in mapPartitionRequest still reports a result; string slices at searched positions are bounds-safe; no mutex is held without defer across goexpr Eval on the recovered ingest path. Further clauses: variadic dimension functions are dispatched with the arity their constructors index; every constant-index access to a parsed function's argument list lies within the checked arity (length sets per path); InsertRaw touches raw client byte maps only under the trace guard or a recover barrier.",
 		NotDecided:  []string{"panics from index/nil/arithmetic inside sqlparser, goexpr, bytemap on arbitrary bytes (no barrier at sql.Parse, and none is added)", "semantic validation of arities beyond what produces a dynamic-type assumption", "panics in goroutines without a barrier other than the two per-entry workers"},
 		Assumptions: []string{"the parse/plan region is closed under static calls and the listed plan-time interface methods"},
 		Rules:       []func(*Ctx){ruleC16a, ruleC16b, ruleC16c, func(c *Ctx) { ruleC16d(c, "C16.d") }, func(c *Ctx) { ruleC16e(c, "C16.e") }, func(c *Ctx) { ruleC16f(c, "C16.f") }, func(c *Ctx) { ruleC16g(c, "C16.g") }, func(c *Ctx) { ruleC16h(c, "C16.h") }, func(c *Ctx) { ruleC16i(c, "C16.i") }, func(c *Ctx) { ruleC16j(c, "C16.j") }},
